@@ -553,6 +553,12 @@ def run(ctx, rep, cases=None):
         cases = [make_case(ctx, i) for i in range(ctx.scale(110, 1200))]
     evaluate(ctx, rep, cases)
     opaque_streams(ctx, rep)
+    h = rep.hist
+    skipped = {k_.split(":", 1)[1]: v_ for k_, v_ in h.items() if k_.startswith("step-skipped:")}
+    rep.notes.append(f"modelled expressions: {h.get('points', 0)} boundary points, exact step test on {h.get('step-tested', 0)}, "
+                     f"skipped {sum(skipped.values())} ({skipped}); every skipped point still went through the finite / unit-length "
+                     f"oracles and the model correspondence; junction = the point lies on the boundary pieces of two different leaves "
+                     f"(crossing or shared boundary pieces, cf. C05 finding union_shared_boundary_piece) where no outward direction is defined by the property")
 
 
 def replay(ctx, obj):
